@@ -744,7 +744,15 @@ impl<'a> GeneratorState<'a> {
                     let right = self.generate_expr(rhs, pos, false, second_time)?;
                     self.generate_shift(&left, op, &right, pos, high_byte)
                 }
-                Operation::TernaryCond1 => self.generate_ternary(lhs, rhs, pos),
+                Operation::TernaryCond1 => {
+                    if high_byte {
+                        // The value is built in the accumulator (8 bits): its high byte is 0,
+                        // and the condition and the alternatives are not evaluated a second time
+                        Ok(ExprType::Immediate(0))
+                    } else {
+                        self.generate_ternary(lhs, rhs, pos)
+                    }
+                }
                 Operation::TernaryCond2 => Err(self
                     .compiler_state
                     .syntax_error("Unexpected ':'. Probably a ';' typo", pos)),
